@@ -1,5 +1,6 @@
 import Clikit.Lemmas.Help
 import Clikit.Lemmas.HelpSame
+import Clikit.Lemmas.HelpWired
 import Clikit.Props.C03
 /-!
 # C13 - help pages are complete, respect hiding, fit the terminal and never fail
@@ -379,6 +380,31 @@ theorem help_same_page_default (cv : Conv) (app : List Cmd) (path : List Str) (s
     rw [hset, hset', hr]
   simp only [helpTarget, hno, hyes, hres, hget, hpar, ht, Bool.false_eq_true, if_false, if_true, beq_self_eq_true]
 
+/-- **`help_same_page_wired`**: `help_same_page_default` with its structural hypotheses DECIDED
+by the model.  `wiredB app sw` (`Model/HelpWired.lean`, executable) checks that
+`application.get_command("help")` finds a command wired as the `help` command of
+`DefaultApplicationConfig` (`helpCmdB`) and that every command of the tree, recursively through
+the sub-commands, declares the switch as a flag (`treeFlagsB`); `headFreeB app path` checks that
+the path does not start with a name the `help` command goes by.  Both are evaluated from the
+tree alone - the driver entry `c13.wired` evaluates `wiredB` on every tree the harness reads
+from a real `DefaultApplicationConfig` application, and the answer is compared with `true`.
+Soundness of the deciders: `wiredB_sound`, `headFreeB_sound` (`Lemmas/HelpWired.lean`). -/
+theorem help_same_page_wired (cv : Conv) (app : List Cmd) (path : List Str) (sw : Str)
+    (hw : wiredB app sw = true)
+    (hp : ∀ p ∈ path, C03.nameLike p = true)
+    (hh : headFreeB app path = true)
+    (hsw : sw = S "-h" ∨ sw = S "--help") :
+    helpTarget cv app (helpName :: path) = helpTarget cv app (path ++ [sw]) := by
+  obtain ⟨h, hget, hc, htree⟩ := wiredB_sound hw
+  exact help_same_page_default cv app path sw h hp (headFreeB_sound hh hget) hsw hget hc htree
+
+/-- what `wiredB` decides, as a statement: the three structural hypotheses of
+`help_same_page_default` -/
+theorem help_same_page_wired_decides (app : List Cmd) (sw : Str) (hw : wiredB app sw = true) :
+    ∃ h : Cmd, (Coll.ofList app).get? helpName = some h ∧ HelpCmd h sw ∧
+      ∀ c, InTree app c → FlagOf c.fmt sw :=
+  wiredB_sound hw
+
 /-- the three parser facts `help_same_page_default` rests on, each from the shape of the tree
 alone: (1) appending a declared flag to a line of names changes no parse outcome, in either
 mode; (2) the help resolver gives the same answer for two lines with the same leading tokens
@@ -552,6 +578,22 @@ theorem dApp_same_page (sw : Str) (hsw : sw = S "-h" ∨ sw = S "--help") :
       subst h1 h3
       decide)
     hsw rfl (dHelp_helpCmd sw hsw) (dApp_flag sw hsw)
+
+/-- the deciders answer `true` on this application, for both switches and the path `server add`
+(so `help_same_page_wired` applies to it with every hypothesis evaluated) -/
+example : wiredB dApp (S "--help") = true ∧ wiredB dApp (S "-h") = true ∧
+    headFreeB dApp [S "server", S "add"] = true := by decide
+
+example (sw : Str) (hsw : sw = S "-h" ∨ sw = S "--help") :
+    helpTarget dConv dApp [S "help", S "server", S "add"] = helpTarget dConv dApp [S "server", S "add", sw] :=
+  help_same_page_wired dConv dApp [S "server", S "add"] sw (by rcases hsw with rfl | rfl <;> decide) (by decide)
+    (by decide) hsw
+
+/-- ... and `false` when the wiring is broken: no `help` command; a command of the tree whose
+format lacks the global option; `help help` -/
+example : wiredB [dServer] (S "--help") = false ∧
+    wiredB [dHelp, .mk (S "x") [] false false noFmt false []] (S "--help") = false ∧
+    headFreeB dApp [S "help"] = false := by decide
 
 def okIs (r : Except Err (Option Target)) (t : Target) : Bool :=
   match r with
